@@ -624,7 +624,7 @@ def gen_scn(rng, idx, prop, params):
     if kind == "Counter" and mode == "field":
         stream, smeta = gen.gen_stream(rng, n, price_style="zerovol", with_ts=False)
     else:
-        stream, smeta = gen.gen_stream(rng, n, with_ts=False)
+        stream, smeta = gen.gen_stream(rng, n, price_style=gen.style_for(rng, kind), with_ts=False)
     rows = [list(r) for r in stream]
     meta["gaps"] = rng.random() < 0.5
     if meta["gaps"]:
